@@ -74,7 +74,7 @@ EnterDirective ==
          position == base + row + 1                              \* token_line of the fence
          plus == IF DevColonNested /\ f.w = "colon" /\ f.opt = "none" /\ f.blanks = 0 /\ f.skip = 0 /\ ~f.first /\ NextStartsWithColon
                  THEN 1 ELSE 0                                    \* the "\n" + content trick of render_colon_fence
-     IN /\ marks' = Append(marks, Mark(IF f.dname = "epigraph" THEN "quote-directive" ELSE "directive"))
+     IN /\ marks' = Append(marks, Mark("directive"))
         /\ IF f.first                                                  \* the fence line itself is body row 0
            THEN /\ base' = (position - 1) + (IF DevFirstLine THEN 1 ELSE 0)  \* as built: rendered at position + 0, i.e. one line late
                 /\ row' = 0
